@@ -9,6 +9,7 @@ mod gprog;
 mod opsat;
 mod pipe;
 mod rec;
+mod tabeval;
 mod props;
 mod tree;
 mod uni;
@@ -59,6 +60,7 @@ fn main() {
         "C01" => props::c01::main(&ctx),
         "C02" => props::c02::main(&ctx),
         "C03" => props::c03::main(&ctx),
+        "C04" | "C11" => props::c04::main(&ctx),
         "C05" => props::c05::main(&ctx),
         "C06" | "C12" => props::c06::main(&ctx),
         "C09" => props::c10::main(&ctx, true),
